@@ -57,5 +57,9 @@ check("C11", "exploration",
       "Post-return monitors on 15 exit paths x 4 modes x 7 buffer shapes x 4 initial termios variants: TCGETS struct equality before/after, last DECSCUSR parameter reset to 0, emulator cursor in column 0 of a blank row below all text; also after a user-registered command panicked and the panic unwound through Readline.",
       TCB, "runtime monitoring: terminal-state monitors (termios, cursor cell, cursor style) after every exit path", "DESIGN.md 5 C11")
 
+check("C14", "exploration",
+      "Framing oracle at every wait after a completion key: buffer == L0[:word start] + offered value + L0[cursor:] (or unchanged), over buffers with multi-byte text, quotes and escaped blanks, cursors at the end / inside / before words, 1-8 candidates (plain, described, tagged, NoSpace, case variants), ignore-case on/off and Tab / Shift-Tab / arrow sequences; C-c in an active menu must restore (L0, cursor) and not end the call.",
+      TCB, "runtime monitoring: framing equality against the pre-completion snapshot and the completer's own candidate list", "DESIGN.md 5 C14")
+
 for _p in ["C03","C04","C05","C06","C07","C08","C09","C10","C11","C12","C13","C14","C15","C16","C17","C18","C19","C20"]:
     NOT_YET[_p] = "check under construction in this session (runtime monitor designed in DESIGN.md section 5, not yet registered)"
